@@ -20,5 +20,11 @@ def run(run_, tier):
     from . import samplers_stage
     samplers_stage.sequential_loop(run_, it, "C13")
     samplers_stage.stage_loop(run_, "C13", it)
+    samplers_stage.allocation(run_, it)
+    # which stages record traces / statistics is decided by the stagers (anchored file): their contracts are part of this property
+    from . import c16
+    it16 = c16.make_interp(run_)
+    c16.check_warmup_stager(run_, it16)
+    c16.check_windowed_stager(run_, it16)
     run_.extraction_drops.extend(sorted(it.dropped))
     run_.notes.append(f"paths explored: {it.paths}")
